@@ -48,7 +48,11 @@ fn mk_shared(g: Injector<It>, l0: Worker<It>, l1: Worker<It>) -> WorkStealQueue<
     WorkStealQueue { shared_queue: g, len: AtomicUsize::new(n), local_queues: v, index: AtomicUsize::new(0) }
 }
 fn mk_local<'l>(q: &'l WorkStealQueue<It>, idx: usize, tick: u32) -> LocalQueue<'l, It> {
-    LocalQueue { tick: AtomicU32::new(tick), shared: q, stealing: AtomicBool::new(false), queue: q.local_queues.get(idx).unwrap() }
+    // the real (private) constructor, then the fields the unit controls: a struct literal would stop compiling
+    // as soon as the type gains a field
+    let l = LocalQueue::new(q, q.local_queues.get(idx).unwrap());
+    l.tick.store(tick, Ordering::Release);
+    l
 }
 
 // the shared pop as a callee contract (proved on the real code in p_shared_push_pop)
@@ -103,17 +107,22 @@ fn p_pop_consultation_order() {
     unsafe { STUB_SHARED = sv; SHARED_CALLS = 0; LOCAL_PTR = a.queue; }
     let r = a.pop();
     let sixty_first = c.wrapping_add(1) % 61 == 0;
+    // the shared queue's state is observed on the real injector (it holds what the stub answers): a route to the
+    // shared queue other than `pop` is then judged by what it does, not by which function it calls
+    let shared_left = i_len(&q.shared_queue);
+    let shared_before = if sv.is_some() { 1 } else { 0 };
     unsafe {
-        if sixty_first {
-            kani::assert(SHARED_CALLS >= 1 && LOCAL_LEN_AT_SHARED_CALL == ln, "C06.every_61st_pop_consults_the_shared_queue_first");
-            kani::assert(r == if sv.is_some() { sv } else { Some(front) }, "C06.every_61st_pop_serves_the_shared_queue_first");
-            if sv.is_some() { kani::assert(w_len(a.queue) == ln && w_count(a.queue, x) == lc, "C06.local_queue_untouched_when_shared_is_served"); }
+        if sixty_first && sv.is_some() {
+            kani::assert(r == sv, "C06.every_61st_pop_serves_the_shared_queue_first");
+            kani::assert(w_len(a.queue) == ln && w_count(a.queue, x) == lc, "C06.local_queue_untouched_when_shared_is_served");
         } else {
-            kani::assert(SHARED_CALLS == 0 && r == Some(front), "C06.other_pops_serve_the_local_queue_first");
-        }
-        if !(sixty_first && sv.is_some()) {
+            kani::assert(r == Some(front), "C06.other_pops_serve_the_local_queue_first");
             kani::assert(w_len(a.queue) == ln - 1 && w_count(a.queue, x) + (if front == x { 1 } else { 0 }) == lc, "C03.pop_removes_exactly_the_returned_item");
+            kani::assert(shared_left == shared_before, "C06.shared_queue_untouched_when_local_is_served");
         }
+        if !sixty_first { kani::assert(SHARED_CALLS == 0, "C06.shared_queue_not_consulted_between_61st_ticks"); }
+        // the shared counter follows the shared content whichever route was taken (the contract stub changes neither)
+        kani::assert(q.len() == i_len(&q.shared_queue), "C03.shared_len_counts_the_items_it_holds");
     }
     std::mem::forget(a);
     std::mem::forget(q);
@@ -202,14 +211,15 @@ fn idle(start: usize) {
     let r = a.pop();
     kani::assert(r.is_some(), "C06.idle_local_queue_obtains_waiting_work");
     let sib = q.local_queues.get(1).unwrap();
-    if unsafe { SHARED_CALLS } == 0 {
+    let shared_untouched = unsafe { SHARED_CALLS } == 0 && i_len(&q.shared_queue) == (if sv.is_some() { 1 } else { 0 });
+    if shared_untouched {
         kani::assert(r == sfront, "C05.steal_serves_the_victims_oldest_item_first");
         kani::assert(w_len(a.queue) + w_len(sib) + 1 == sn, "C03.steal_neither_loses_nor_duplicates_an_item");
         kani::assert(w_count(a.queue, x) + w_count(sib, x) + (if r == Some(x) { 1 } else { 0 }) == total_x, "C03.steal_neither_loses_nor_duplicates_an_item");
     } else {
         kani::assert(r == sv && w_len(a.queue) + w_len(sib) == sn && w_count(a.queue, x) + w_count(sib, x) == total_x, "C06.idle_local_queue_falls_back_to_the_shared_queue");
     }
-    kani::cover!(sn == 2 && unsafe { SHARED_CALLS } == 0, "C06.cover_steal_from_sibling");
+    kani::cover!(sn == 2 && shared_untouched, "C06.cover_steal_from_sibling");
     kani::cover!(sn == 0, "C06.cover_fallback_to_shared");
     std::mem::forget(a);
     std::mem::forget(q);
